@@ -57,3 +57,65 @@ Definition prologue_reads (reffetch_uncached_root : bool) (root0 : node)
            (plat_on_image : option (node * node)) : list node :=
   (if reffetch_uncached_root then [root0] else []) ++
   match plat_on_image with Some (m, cfgblob) => [m; cfgblob] | None => [] end.
+
+(* The root that copyGraph starts from, as Copy computes it: resolve the source reference, apply the
+   user's MapRoot if any, then WithTargetPlatform's selection if a platform was given (on a manifest
+   list: select_manifest over its entries; [entries_of] gives a manifest list's entries, None for a
+   node on which platform selection is not modelled).  None = Copy returns an error before copying. *)
+Definition copy_root (resolved : option node) (user_map : option (node -> option node))
+           (platform : option plat) (entries_of : node -> option (list (node * option plat))) : option node :=
+  let sel := fun r => match platform with
+                      | None => Some r
+                      | Some want => match entries_of r with
+                                     | Some es => select_manifest es want
+                                     | None => None
+                                     end
+                      end in
+  prologue resolved
+           (Some (fun r => match user_map with
+                           | None => sel r
+                           | Some f => match f r with Some r' => sel r' | None => None end
+                           end)).
+
+(* What Copy's prologue reads from the source, and what it leaves in the proxy cache.
+   resolveRoot through a ReferenceFetcher opens the resolved root once; the content stays in the cache
+   iff it was read to the end: a manifest (content.Successors decodes it) or an empty blob.
+   WithTargetPlatform (platform.SelectManifest, with caching stopped): on a manifest list it reads the
+   list; on an image manifest it reads the manifest and then its config blob -- the latter only when
+   the config has the image-config media type (otherwise ErrUnsupported before the read); on any other
+   node it fails without reading. *)
+Inductive plat_target :=
+| PTNone                          (* no target platform *)
+| PTList                          (* the mapped root is a manifest list *)
+| PTImage (cfgblob : node) (cfg_type_ok : bool)   (* the mapped root is an image manifest *)
+| PTOther.                        (* neither: unsupported *)
+
+Definition cache_after_resolve (reffetch root0_is_manifest root0_is_empty : bool) (root0 : node) : list node :=
+  if reffetch && (root0_is_manifest || root0_is_empty) then [root0] else [].
+
+(* platform selection reads through proxy.FetchCached: what resolveRoot left in the cache is not read
+   from the source again *)
+Definition prologue_fetches (reffetch : bool) (root0 mapped : node) (pt : plat_target)
+           (cache : list node) : list node :=
+  (if reffetch then [root0] else []) ++
+  filter (fun x => negb (memb x cache))
+    match pt with
+    | PTNone | PTOther => []
+    | PTList => [mapped]
+    | PTImage cfgblob ok => if ok then [mapped; cfgblob] else [mapped]
+    end.
+
+(* platform.SelectManifest as a whole: what it sees of the (mapped) root -- a manifest list with its
+   entries, an image manifest with its config (has the image-config media type? the platform decoded
+   from the config blob), or anything else -- and what it answers *)
+Inductive pview :=
+| PVList (entries : list (node * option plat))
+| PVImage (cfg_type_ok : bool) (cfg_platform : option plat)
+| PVOther.
+
+Definition select_target (r : node) (v : pview) (want : plat) : option node :=
+  match v with
+  | PVList es => select_manifest es want
+  | PVImage ok p => if ok && plat_match p want then Some r else None
+  | PVOther => None
+  end.
